@@ -432,12 +432,11 @@ def foreign_items(kinds, model):
         inner = path("CArc", VOID) if has_arc else prim("u64")
         its.append(typedef("TaggedHandle", [], path("Tagged", inner), None, True))
         args.append(("handle", ptr(path("TaggedHandle"), False)))
-    if "func" in kinds or args:
-        # split so that every declaration stays below cbindgen's line_length (its vertical wrapping is not modelled)
-        fns.append(function("render_frame", prim("u32"), [("frame_no", prim("u32"))] + args[:2],
-                            [" Unrelated exported function."], True))
-        if args[2:]:
-            fns.append(function("render_scene", VOID, args[2:], None, True))
+    # one short function per planted type: every declaration stays below cbindgen's line_length (vertical wrapping is not modelled)
+    if "func" in kinds:
+        fns.append(function("render_frame", prim("u32"), [("frame_no", prim("u32")), ("flags", prim("u64"))], [" Unrelated exported function."], True))
+    for n, t in args:
+        fns.append(function("use_" + n, VOID, [(n, t)], None, True))
     return its, fns
 
 
